@@ -53,8 +53,19 @@ INT = re.compile(r"(?<![\w.])(\d+)(?![\w.])")
 
 
 def sh(cmd, cwd=None, env=ENV, timeout=3600):
-    p = subprocess.run(cmd, shell=True, cwd=cwd, env=env, stdout=subprocess.PIPE, stderr=subprocess.STDOUT, text=True, timeout=timeout)
-    return p.returncode, p.stdout
+    """run in its own process group; on timeout the whole group is killed and rc = -9 is returned (a mutant may loop for ever)"""
+    import signal
+    p = subprocess.Popen(cmd, shell=True, cwd=cwd, env=env, stdout=subprocess.PIPE, stderr=subprocess.STDOUT, text=True, start_new_session=True)
+    try:
+        out, _ = p.communicate(timeout=timeout)
+        return p.returncode, out
+    except subprocess.TimeoutExpired:
+        try:
+            os.killpg(p.pid, signal.SIGKILL)
+        except ProcessLookupError:
+            pass
+        p.communicate()
+        return -9, "TIMEOUT"
 
 
 def prepare():
@@ -105,9 +116,10 @@ def mutants_of(path):
     return lines, res
 
 
-def run(files, limit, out_path, stride):
+def run(files, limit, out_path, stride, start=0):
+    prev = json.load(open(out_path))[:start] if start and os.path.exists(out_path) else []
     prepare()
-    results = []
+    results = prev
     t_start = time.time()
     all_files = [f for f in CHECKS if not files or f in files]
     todo = []
@@ -120,13 +132,18 @@ def run(files, limit, out_path, stride):
         todo = todo[:limit]
     print(f"{len(todo)} mutants to try", flush=True)
     for n, (f, lines, (i, a, b, r)) in enumerate(todo):
+        if n < start:
+            continue
         path = os.path.join(COPY, f)
         new = list(lines)
         new[i] = lines[i][:a] + r + lines[i][b:]
         open(path, "w").write("\n".join(new))
         desc = {"file": f, "line": i + 1, "from": lines[i].strip(), "to": new[i].strip()}
-        rc, out = sh("cargo test --offline --lib 2>&1 | tail -30", cwd=COPY)
-        if "error" in out and "test result" not in out:
+        rc, out = sh("cargo test --offline --lib 2>&1 | tail -30", cwd=COPY, timeout=600)
+        if rc == -9:
+            desc["status"] = "killed_by_pinned_suite"
+            desc["note"] = "pinned suite does not terminate"
+        elif "error" in out and "test result" not in out:
             desc["status"] = "stillborn"
         elif "test result: ok" not in out:
             desc["status"] = "killed_by_pinned_suite"
@@ -134,7 +151,11 @@ def run(files, limit, out_path, stride):
             desc["status"] = "survivor"
             for c in CHECKS[f]:
                 t0 = time.time()
-                rc, o = sh(f"./check {c} quick", cwd=VERIF, env=CHECK_ENV, timeout=1800)
+                rc, o = sh(f"./check {c} quick", cwd=VERIF, env=CHECK_ENV, timeout=900)
+                if rc == -9:
+                    # the check did not finish within 15 minutes (quick tiers take < 1 min): the mutant makes the subject loop
+                    desc["status"] = f"hang_seen_by_{c}"
+                    break
                 if rc == 1 and "VIOLATION" in o:
                     desc["status"] = f"killed_by_{c}"
                     desc["check_seconds"] = round(time.time() - t0, 1)
@@ -154,7 +175,7 @@ def run(files, limit, out_path, stride):
 def report(path):
     rs = json.load(open(path))
     from collections import Counter
-    c = Counter(r["status"].split("_by_")[0] if r["status"].startswith("killed_by_C") else r["status"] for r in rs)
+    c = Counter(r["status"].split("_by_")[0] if r["status"].startswith(("killed_by_C", "hang_seen_by_")) else r["status"] for r in rs)
     byc = Counter(r["status"] for r in rs if r["status"].startswith("killed_by_C"))
     print(dict(c))
     print("kills per check:", dict(byc))
@@ -167,7 +188,7 @@ def report(path):
 if __name__ == "__main__":
     a = sys.argv
     if len(a) >= 2 and a[1] == "run":
-        files, limit, out, stride = None, 0, os.path.join(WORK, "results.json"), 1
+        files, limit, out, stride, start = None, 0, os.path.join(WORK, "results.json"), 1, 0
         i = 2
         while i < len(a):
             if a[i] == "--files":
@@ -178,8 +199,10 @@ if __name__ == "__main__":
                 out = a[i + 1]
             elif a[i] == "--stride":
                 stride = int(a[i + 1])
+            elif a[i] == "--start":
+                start = int(a[i + 1])
             i += 2
-        run(files, limit, out, stride)
+        run(files, limit, out, stride, start)
     elif len(a) >= 3 and a[1] == "report":
         report(a[2])
     elif len(a) >= 2 and a[1] == "clean":
